@@ -1,10 +1,12 @@
 (* C13 -- streaming inflate obeys its status protocol.  Proved on the model of inflate():
-   full-flush requests, sticky errors, non-Finish after Finish.  Counts, progress and the
-   stream-end clauses rest on the core contract and are decided per explored run. *)
+   full-flush requests, sticky errors, non-Finish after Finish, and - for every state reachable
+   from a constructor, every input, output length and flush value - counts within the offered
+   buffers with the window bookkeeping preserved (on top of the core frame theorem).  Progress
+   and the stream-end clauses are decided per explored run. *)
 From Coq Require Import NArith ZArith List.
 From MZ.lib Require Import Mach.
 From MZ.model Require Import InflateCore InflateStream.
-From MZ.proofs Require Import Protocol.
+From MZ.proofs Require Import Protocol InflateStreamCounts.
 Import ListNotations.
 Local Open Scope N_scope.
 
@@ -31,3 +33,19 @@ Theorem C13_nonfinish_after_finish :
   inflate s input out_len flush
   = Ret {| sr_code := MZ_ERR_STREAM; sr_in := 0; sr_out := []; sr_state := set_first s false |}.
 Proof. exact inflate_nonfinish_after_finish. Qed.
+
+Theorem C13_counts_within_offered_buffers :
+  forall s input out_len flush r,
+  WF s -> out_len <= USIZE_MAX ->
+  inflate s input out_len flush = Ret r ->
+  sr_in r <= N.of_nat (length input) /\ N.of_nat (length (sr_out r)) <= out_len /\ WF (sr_state r).
+Proof. exact inflate_counts. Qed.
+
+(* WF (window length 32768, dict_ofs + dict_avail <= 32768) holds for every constructor and reset policy, and by the
+   theorem above after every call: it is an invariant of all reachable states *)
+Theorem C13_wf_of_constructors :
+  forall fmt s, WF (is_new fmt) /\ (WF s -> WF (min_reset s) /\ WF (zero_reset s) /\ WF (full_reset fmt s)).
+Proof.
+  intros fmt s. split; [apply WF_new|]. intros H.
+  split; [apply WF_min_reset|split; [apply WF_zero_reset|apply WF_full_reset]]; exact H.
+Qed.
